@@ -169,6 +169,11 @@ func VerifSelfmon(arg string) {
 			vDrain()
 			// a watcher that is no longer active stops monitoring and gives the key back
 			vAssert("C28/inactive-watcher-stops-and-unregisters", st.unregistered == st.registered)
+			if ev != 3 {
+				// C26: a registrant whose registration lapsed is notified - the watcher must
+				// stop acting as the active one and give the registration back
+				vAssert("C26/lapsed-active-watcher-is-notified-and-stops", st.unregistered == st.registered)
+			}
 			started = false
 			vCover("term-ended", true)
 			// lapses seen while active have been handled; what lapses from now on is found by the next scan
